@@ -58,7 +58,7 @@ theorem notification_with_bad_length_is_answered :
     `st` which is handed a message `m` that ends the session per the RFCs (`causeOf st m = some
     cause`) writes exactly one thing on that connection, a NOTIFICATION whose (code, subcode) is
     in `errorClass cause st`, and closes it.  FALSE of the unchanged code in exactly the cases
-    `Deviates st m` (findings F31, F12-rest, F32 below); proved for all the others, in every
+    `Deviates st m` (findings F31, F32 below); proved for all the others, in every
     reachable state: -/
 theorem code_is_class_partial (s : State) (hinv : Inv s) (c : Nat) (k : Conn)
     (haw : awaited s = some c) (hc : s.conn = some k) (hk : k.id = c) (hr : k.rst = false)
@@ -95,13 +95,6 @@ theorem open_in_established_is_ignored :
     (step (run (init plain false) [.start, .connectOk, .recv 1 (.openOk false), .recv 1 .keepalive, .tick]).1
       (.recv 1 (.openOk false))).2 = [] ∧
     causeOf .established (.openOk false) = some (.unexpected (.openOk false)) := by
-  decide
-
-/-- **finding (what is left of F12).** OPERATIONAL (capability not negotiated) ends the session
-    with NOTIFICATION 1/0; RFC 4271 §6.1 makes an unrecognised type 1/3. -/
-theorem operational_is_answered_1_0 :
-    Out.send 1 (.notification 1 0) .opensent ∈ trace plain false [.start, .connectOk, .recv 1 .operational] ∧
-    (1, 0) ∉ errorClass .operational .opensent := by
   decide
 
 /-- **finding.** The wait for the OPEN (the "large" hold timer of OpenSent, RFC 4271 §8.2.2
